@@ -27,6 +27,14 @@ FORMS = [
     ("from ..sub.deep import bottom", ["bottom"]),
     ("from .leaf import leaf_attr as la", ["la"]),
     ("from ..alpha import attr", ["attr"]),
+    # the same module named by several import statements of one scope: every statement imports for itself
+    ("from pkgroot import alpha\nfrom pkgroot import zeta", ["alpha", "zeta"]),
+    ("from pkgroot import top_attr\nfrom pkgroot import alpha as A\nfrom pkgroot import top_attr as t2", ["top_attr", "A", "t2"]),
+    ("from . import leaf\nfrom . import other as o2\nfrom .. import zeta\nfrom .. import alpha", ["leaf", "o2", "zeta", "alpha"]),
+    ("from pkgroot.sub import sub_attr\nfrom pkgroot.sub import leaf", ["sub_attr", "leaf"]),
+    ("if 0:\n    from pkgroot import alpha\nfrom pkgroot import zeta", ["zeta"]),
+    ("for _i in range(2):\n    from pkgroot import alpha\nelse:\n    from pkgroot import zeta", ["alpha", "zeta"]),
+    ("import pkgroot.alpha as A\nimport pkgroot.alpha as B\nimport pkgroot.alpha\nimport pkgroot.zeta", ["A", "B", "pkgroot"]),
 ]
 
 
